@@ -10,8 +10,9 @@
 (***************************************************************************)
 EXTENDS BlockOpSem
 
-\* TRUE mirrors the current code: __getitem__(int) fills an absent entry of column j with
-\* ZeroOperator(domain[j]) (range = domain[j]) instead of ZeroOperator(domain[j], range[i])
+\* TRUE mirrors the code BEFORE /repo commit 573a8a1 (KF-EXT-blockops-1): __getitem__(int) filled an absent entry of
+\* column j with ZeroOperator(domain[j]) (range = domain[j]) instead of ZeroOperator(domain[j], range[i]).
+\* FALSE mirrors the repaired code (the harness passes BO_ROWBUG = "0").
 CONSTANT RowZeroRangeBug
 
 Ent(i, j, b) == [i |-> i, j |-> j, b |-> b]
